@@ -181,7 +181,7 @@ func zzC18Override(key, idx int) {
 	}
 }
 
-var zzOtherFiles = []string{"some/dir/PARAM.XY", "some/dir/XPARAM.X", "some/dir/PARAM.", "PARAM.X/PARAM.Y", "some/dir/param.x"}
+var zzOtherFiles = []string{"some/dir/PARAM.XY", "some/dir/PARAM.XY.yml", "some/dir/XPARAM.X", "some/dir/PARAM.", "PARAM.X/PARAM.Y", "some/dir/param.x"}
 
 // an override addresses one crop parameter file: while any other crop of the rotation is read (also one whose file
 // name merely starts or ends with the addressed name) the run is the one without overrides
